@@ -148,3 +148,105 @@ def default_of(repo, qual, param):
         if p.arg == param and d is not None:
             return ast.unparse(d)
     return None
+
+
+MUTATING_METHODS = {"append", "extend", "insert", "add", "update", "remove", "discard", "pop", "clear", "sort", "reverse", "setdefault", "popitem", "__iadd__"}
+
+
+def shared_value_mutations(repo, classes):
+    """In the methods of the given (interned, cached) classes: a local that may hold a value read from an attribute of some
+    object -- directly, through a conditional expression / `or`, or through a subscript of such a value -- and is then
+    changed in place (+=, a mutating method, an item store).  The attribute (a constructor field or a cached property of an
+    interned selector) is shared by every selector built from that object, in every probe of the process.
+    -> [description]"""
+    import ast
+    from ..core import norm, walk_local
+    out = []
+    for q, fi in sorted(repo.functions.items()):
+        if fi.cls not in classes:
+            continue
+        def may_alias(e):
+            if isinstance(e, ast.Attribute):
+                return True
+            if isinstance(e, ast.Subscript):
+                return may_alias(e.value)
+            if isinstance(e, ast.IfExp):
+                return may_alias(e.body) or may_alias(e.orelse)
+            if isinstance(e, ast.BoolOp):
+                return any(may_alias(v) for v in e.values)
+            if isinstance(e, ast.NamedExpr):
+                return may_alias(e.value)
+            return False
+        aliases = {}
+        for n in walk_local(fi.node):
+            if isinstance(n, ast.Assign) and len(n.targets) == 1 and isinstance(n.targets[0], ast.Name) and may_alias(n.value):
+                aliases[n.targets[0].id] = n
+        for n in walk_local(fi.node):
+            tgt = None
+            if isinstance(n, ast.AugAssign) and isinstance(n.target, ast.Name):
+                tgt, how = n.target.id, f"`{norm(n)}`"
+            elif isinstance(n, ast.Call) and isinstance(n.func, ast.Attribute) and n.func.attr in MUTATING_METHODS and isinstance(n.func.value, ast.Name):
+                tgt, how = n.func.value.id, f"`{norm(n)[:60]}`"
+            elif isinstance(n, (ast.Assign, ast.Delete)):
+                for t in (n.targets if isinstance(n, (ast.Assign, ast.Delete)) else []):
+                    if isinstance(t, ast.Subscript) and isinstance(t.value, ast.Name):
+                        tgt, how = t.value.id, f"`{norm(n)[:60]}`"
+            if tgt in aliases:
+                out.append(f"{q}: `{tgt}` may be the object read in `{norm(aliases[tgt])[:70]}` and is changed in place by {how}")
+            # direct: self.x.append(..) / self.x += ..
+            if isinstance(n, ast.Call) and isinstance(n.func, ast.Attribute) and n.func.attr in MUTATING_METHODS and isinstance(n.func.value, ast.Attribute) \
+                    and fi.node.name != "__init__":
+                out.append(f"{q}: `{norm(n)[:60]}` changes an attribute value in place")
+    return out
+
+
+def variant_selection_obligations(repo, chk, rule, suffix=""):
+    """Which compiled variant of a function runs: the key is None exactly when nothing is active and otherwise EVERY capture
+    with a positive count (as the distinct elements they are); a registered key is returned as is and a new variant
+    instruments exactly the requested captures.  Shared by the properties that depend on 'what is selected is what is
+    instrumented' (C02 C05 C06 C08 C16)."""
+    import ast
+    from ..astq import facts_of, is_name, kwarg, literals, returns_with_conds
+    from ..core import norm
+    get = repo.func("transform.StackedTransforms.get")
+    fget = facts_of(get)
+    ok, why = False, "shape not recognised"
+    cases = []
+    shape_ok = True
+    for cs, v, r in returns_with_conds(get.node):
+        if not (isinstance(v, ast.Call) and norm(v.func) == "self.tset.transform_for" and len(v.args) == 1 and not v.keywords):
+            shape_ok = False
+            continue
+        a0 = v.args[0]
+        if isinstance(a0, ast.Name):
+            defs = [(t[len(a0.id) + 3:], set(c)) for t, c, n in fget.items if t.startswith(f"{a0.id} = ") and not (isinstance(n, ast.Assign) and isinstance(n.value, ast.IfExp))]
+            cases += [(txt, c | set(cs)) for txt, c in defs]
+        elif isinstance(a0, ast.IfExp):
+            cases += [(norm(a0.body), set(cs) | set(literals(a0.test, True))), (norm(a0.orelse), set(cs) | set(literals(a0.test, False)))]
+        else:
+            cases.append((norm(a0), set(cs)))
+    if shape_ok and cases:
+        none_c = [c for t, c in cases if t == "None"]
+        live_c = [c for t, c in cases if t == "[cap for cap, count in self.captures.items() if count > 0]"]
+        ok = len(cases) == 2 and len(none_c) == 1 and len(live_c) == 1 and none_c[0] == {"self.instrument_count == 0"} and live_c[0] == {"self.instrument_count != 0"}
+        why = f"cases of the key: {[(t, sorted(c)) for t, c in cases]}"
+    chk.ob(rule, "transform.StackedTransforms.get:none-iff-count-zero" + suffix, ok, get.where,
+           "variant key is None exactly when no probe is active and otherwise every capture element with a positive count: " + why)
+    sb = repo.func("transform.TransformSet._set_base")
+    chk.ob(rule, "transform.TransformSet._set_base:base-under-None" + suffix, facts_of(sb).has(f"self._register(None, {sb.node.args.args[1].arg})", exactly=[]), sb.where,
+           "the untouched function (its original code object) is what is registered under key None")
+    rg = repo.func("transform.TransformSet._register")
+    kp, fp = (a.arg for a in rg.node.args.args[1:3])
+    chk.ob(rule, "transform.TransformSet._register:records-code" + suffix, any(isinstance(n, ast.Assign) and not c for t, c, n in facts_of(rg).starting(f"self.transforms[{kp}] = ({fp}, {fp}.__code__,")), rg.where,
+           "a variant is registered with its code object under its capture key")
+    tf = repo.func("transform.TransformSet.transform_for")
+    ftf = facts_of(tf)
+    cp = tf.node.args.args[1].arg
+    made = [c for t, c, n in ftf.items if isinstance(n, ast.Call) and is_name(n.func, "transform")]
+    regs = [n for t, c, n in ftf.items if isinstance(n, ast.Call) and norm(n.func) == "self._register"]
+    ok = ftf.has(f"return self.transforms[{cp}]", exactly=[f"{cp} in self.transforms"]) and bool(made) and all(f"{cp} not in self.transforms" in c for c in made) \
+        and all(kwarg(n, "to_instrument") is not None and is_name(kwarg(n, "to_instrument"), cp) for t, c, n in ftf.items if isinstance(n, ast.Call) and is_name(n.func, "transform")) \
+        and bool(regs) and all(n.args and is_name(n.args[0], cp) for n in regs) \
+        and all(t in (f"{cp} = frozenset({cp})",) for t, c, n in ftf.items if isinstance(n, ast.Assign) and any(is_name(x, cp) for x in n.targets))
+    chk.ob(rule, "transform.TransformSet.transform_for:cache-hit-first" + suffix, ok, tf.where,
+           "the variant cache is keyed by the full capture set (only frozen, never reduced); a registered key (including None) is returned without re-transforming; a new variant instruments exactly the requested captures and is registered under that same key")
